@@ -189,10 +189,16 @@ def raw_range(f):
     return (math.ceil(lo / res), math.floor(hi / res))
 
 
+def eff_signed(f):
+    """is the raw count sign-extended?  A field with an Offset is stored excess-K: its raw count is unsigned, the database's Signed flag
+    then only says that the values can be negative (its RangeMax fits an unsigned count only)"""
+    return bool(f.get("Signed", False)) and not f.get("Offset")
+
+
 def boundary_raws(f, rnd):
     """interesting raw values (as signed ints where the field is signed) of a fixed-width field"""
     n = f["BitLength"]
-    signed = bool(f.get("Signed", False))
+    signed = eff_signed(f)
     top = (1 << n) - 1
     vals = {0, 1, top, top - 1, top - 2, rnd.getrandbits(n)}
     if n > 1:
@@ -429,7 +435,7 @@ def oracle_check(db, sfx, p, fn, x):
         bits = (x >> o) & ((1 << n) - 1)
         t = f["FieldType"]
         if t in ("NUMBER", "MMSI", "PGN", "DURATION", "TIME", "DATE") and "Resolution" in f and "RangeMin" in f:
-            signed = bool(f.get("Signed"))
+            signed = eff_signed(f)
             z = bits - (1 << n) if signed and bits >> (n - 1) else bits
             na = (n >= 2 and not signed and bits == (1 << n) - 1) or (n >= 4 and signed and z == (1 << (n - 1)) - 1)
             if na:
@@ -567,7 +573,7 @@ def mutate_values(f, dbf, rnd):
     n = dbf.get("BitLength", 8)
     if t in ("NUMBER", "PGN") and "Resolution" in dbf:
         res = dbf["Resolution"]
-        signed = bool(dbf.get("Signed"))
+        signed = eff_signed(dbf)
         ofs = dbf.get("Offset", 0)
         top = (1 << (n - 1)) - 2 if signed else (1 << n) - 2
         bot = -(1 << (n - 1)) if signed else 0
